@@ -56,7 +56,7 @@ def render(name, s, e, nlook):
                 related.append(E.ev(code, 0, (0x1_0000_4000, 0x2_0000_0001, 0x7fff_ffff_ffff, 9)))
     evs = [E.ev(name, 1, s)] + look + related + [E.ev(name, 2, e)]
     out = [t for t in p.feed_generator(E.restamp(evs)) if t.ktraces[0].eventid == evs[0].eventid]
-    return [str(t) for t in out]
+    return [E.stable_str(t) for t in out]        # rendered twice: the text of a trace object does not change between two uses
 
 
 def judge_twin(base, s, e, nlook):
@@ -124,7 +124,10 @@ def judge_twin_after_failure(base, fail_on):
         a, b = feed(base, s, e), feed(nc, s, e)
     except Exception as ex:
         return ('twin-raised-after-an-undecodable-window:' + type(ex).__name__, {'error': repr(ex)[:200]})
-    fa, fb = render(base, s, e, 0), render(nc, s, e, 0)
+    try:
+        fa, fb = render(base, s, e, 0), render(nc, s, e, 0)
+    except Exception as ex:
+        return ('twin-rendering-raised:' + type(ex).__name__, {'error': repr(ex)[:200]})
     if a != fa or b != fb:
         return ('twin-rendering-changes-after-an-undecodable-window', {'base': a, 'nocancel': b, 'fresh_base': fa, 'fresh_nocancel': fb, 'failed_first': fail_on})
     return None
@@ -175,7 +178,7 @@ class C17(Check):
             'de-duplication of ids); per-family handler dicts pairwise disjoint; every *_nocancel entry has its base registered; '
             'for every twin pair the product of START word domains (as C09) x 6 END tuples (success, failure, other values, error words -1 as 32- and 64-bit words, -2) x {0,2} lookups: renderings equal up '
             'to the _nocancel suffix of the call name (the lookups\' paths contain the call\'s own name; every code of the table whose name starts with the base name, e.g. BSC_pread_extended_info, is nested in the window); and both twins printed twice by ONE PyKdebugParser object with byte-identical '
-            'tuples, in both orders, through formatted_traces; and on ONE parser after a window of X / X_nocancel / both that cannot be decoded (enum word outside its members; path bytes that are not text): both twins render as on a fresh parser. Distinct by construction; non-trivial = twin comparison runs and table '
+            'tuples, in both orders, through formatted_traces; and on ONE parser after a window of X / X_nocancel / both that cannot be decoded (enum word outside its members; path bytes that are not text): both twins render as on a fresh parser; and after each on/off setting of a facade object was flipped on ANOTHER object that listed a dump. Distinct by construction; non-trivial = twin comparison runs and table '
             'entries of decoders with a _nocancel twin.')
     assumptions = ('the bundled table is read from pykdebugparser/trace.codes of the tree under test',)
 
@@ -234,6 +237,29 @@ class C17(Check):
                     acc.case(nontrivial=True, transitions=6, outcome=h64((base, fail_on)))
                     if bad:
                         acc.violation(f'{bad[0]}@{base}', {'kind': 'after-failure', 'base': base, 'fail_on': fail_on}, bad[1])
+                if base == desc[1][0]:
+                    # every on/off setting of the facade object (whatever settings the tree under test has), flipped on ONE object that
+                    # then lists a dump: objects created afterwards with default settings still render the twins alike
+                    import io
+                    from mc import build as B
+                    from pykdebugparser.pykdebugparser import PyKdebugParser
+                    s_, e_ = D.in_domain(base, 'se', (0x1111, 0x2222, 0x3333, 0x4444), (0, 0x55, 0x66, 0x77), 1)
+                    blob = B.v2([(1, 10, 'p')], 0, [B.rec(1, s_, 1, E.n2i(base) | 1), B.rec(2, e_, 1, E.n2i(base) | 2),
+                                                   B.rec(3, s_, 1, E.n2i(base + '_nocancel') | 1), B.rec(4, e_, 1, E.n2i(base + '_nocancel') | 2)])
+                    for attr, val in sorted(vars(PyKdebugParser()).items()):
+                        if not isinstance(val, bool):
+                            continue
+                        try:
+                            other = PyKdebugParser()
+                            setattr(other, attr, not val)
+                            list(other.formatted_traces(io.BytesIO(blob), dict(E.codes())))
+                        except Exception:
+                            pass
+                        bad = judge_facade_twins(base, 0)
+                        acc.case(nontrivial=True, transitions=12, outcome=h64(('setting', attr)))
+                        if bad:
+                            acc.violation(f'{bad[0]}:after-another-object-was-configured@{base}', {'kind': 'facade', 'base': base, 'order': 0, 'setting': attr}, bad[1])
+                            break
                 for order in (0, 1):
                     bad = judge_facade_twins(base, order)
                     acc.case(nontrivial=True, transitions=8, outcome=h64((base, order)))
